@@ -1,3 +1,283 @@
-import HapVerif.Model.C18
+import HapVerif.Lemmas.C18
+import HapVerif.Drv.C18
+import HapVerif.Generated.Facts
+/-!
+# C18 — external authentication fails closed: property theorems
+
+Model: `HapVerif.C18.run fixed w hostOrder backendOrder` (Model/C18.lean) = `fullSyncAnnotations`
+restricted to `buildHostAuthExternal`, `buildBackendAuthExternal`, `buildBackendOAuth` over the
+abstract outcomes of the auth-url validation, sharing one auth-proxy bind list; `obsOf` = what the
+rendered `http-request` rules do to one path.  `fixed = false` is `buildBackendOAuth` as found,
+`fixed = true` with the precedence test on the path's own auth-url and the deny restored
+(`/verif/.build/c18-fix.patch`); the driver picks the variant from the regenerated facts
+(`currentFixed`).  Spec: `pathOk` (Model/C18.lean).
+-/
 namespace HapVerif.C18
+
+/-! ## the auth-proxy port allocator (`Frontend.AcquireAuthBackendName`) -/
+
+/-- a successful answer is bound to the asked backend afterwards and nothing else changed; a
+port that was not bound to it before is an unbound port of the configured range -/
+theorem acquire_answer {bs bs' : List Bind} {rs re p : Int} {t : Nat} (hs : Sorted bs)
+    (h : acquire bs rs re t = (some p, bs')) :
+    ⟨p, t⟩ ∈ bs' ∧ (∀ b, b ∈ bs' ↔ b = ⟨p, t⟩ ∨ b ∈ bs) ∧ Sorted bs' ∧
+    (⟨p, t⟩ ∈ bs ∨ (rs ≤ p ∧ p ≤ re ∧ p ∉ ports bs ∧ ∀ b ∈ bs, b.target ≠ t)) :=
+  acquire_some hs h
+
+/-- "auth proxy list is full" is answered exactly when the backend has no bind yet and every
+port of the range is bound (in particular: always for an empty range) -/
+theorem full_iff_exhausted {bs : List Bind} {rs re : Int} {t : Nat} (hs : Sorted bs) :
+    (acquire bs rs re t).1 = none ↔
+      (∀ b ∈ bs, b.target ≠ t) ∧ ∀ q, rs ≤ q → q ≤ re → q ∈ ports bs :=
+  acquire_full_iff hs
+
+/-- over every history of acquire / remove-except / remove-by-target / range change from the
+empty list: no port is bound twice and no backend is bound twice -/
+theorem ports_never_twice (rs re : Int) (ops : List AllocOp) :
+    (ports (ops.foldl AllocState.step ⟨rs, re, []⟩).binds).Nodup ∧
+    (targets (ops.foldl AllocState.step ⟨rs, re, []⟩).binds).Nodup :=
+  ⟨sorted_ports_nodup (alloc_history_inv rs re ops).1, (alloc_history_inv rs re ops).2⟩
+
+/-- non-vacuity: range of one port, two backends — the second one is refused -/
+example : (acquire (acquire [] 14415 14415 1).2 14415 14415 2).1 = none := by decide
+example : (acquire [] 14415 14414 1).1 = none := by decide
+example : (acquire (acquire [] 14415 14416 1).2 14415 14416 2) = (some 14416, [⟨14415, 1⟩, ⟨14416, 2⟩]) := by decide
+
+/-! ## scoping of the backend rules (`createPathConfig`, `PathIDs`) -/
+
+/-- **scoped**: whatever records the paths of a backend carry, the id set that guards the rules
+of a config item contains a path of that backend iff the item was built from that path's config -/
+theorem rules_scoped (brec : Nat → AuthRec) (idxs : List Nat) {g : AuthRec × List Nat}
+    (hg : g ∈ groupsOf brec idxs) {i : Nat} (hi : i ∈ idxs) : i ∈ g.2 ↔ g.1 = brec i :=
+  group_scoped brec idxs hg hi
+
+/-- hence the rules the backend section applies to a path id are exactly the rules of that
+path's own record (with or without ACL) -/
+theorem backend_rules_own (brec : Nat → AuthRec) (idxs : List Nat) {i : Nat} (hi : i ∈ idxs) :
+    backendRules brec idxs i = rulesOf (brec i) :=
+  backendRules_eq brec idxs hi
+
+/-- non-vacuity: three paths, two configs -/
+example : groupsOf (fun i => if i = 1 then { alwaysDeny := true } else {}) [0, 1, 2] =
+    [({}, [0, 2]), ({ alwaysDeny := true }, [1])] := by decide +kernel
+
+/-! ## every run: names on backend paths are backed by a bind to the path's own service -/
+
+/-- for both variants, every host order, every backend order: the bind list is strictly sorted
+and a backend-path record naming `_auth_<P>` belongs to a path with an auth-url whose backend
+is what port `P` forwards to — clean-ups of an exhausted range never break this -/
+theorem run_binds_back_records (fixed : Bool) (w : World) (ho bo : List Nat) :
+    Sorted (run fixed w ho bo).binds ∧
+    ∀ i P, ((run fixed w ho bo).brec i).name = .proxy P →
+      ∃ p u, w.paths[i]? = some p ∧ p.url = .val u ∧ ⟨P, u.target⟩ ∈ (run fixed w ho bo).binds :=
+  run_inv fixed w ho bo
+
+/-! ## fail closed -/
+
+/-- the property on the model: every path of every world, under every iteration order -/
+def FailClosed (fixed : Bool) : Prop :=
+  ∀ (w : World) (ho bo : List Nat) (i : Nat) (p : PathIn), bo.Nodup → w.paths[i]? = some p →
+    p.backend ∈ bo →
+    pathOk w (run fixed w ho bo).binds p (obsOf w (run fixed w ho bo) i) = true
+
+/- Full-strength statement: `theorem fail_closed : FailClosed true`.
+   It does not hold (`fail_closed_fails` below: frontend placement); what is proved is the part
+   that rests on the backend section: -/
+
+/-- **fail closed, backend placement and oauth** (repaired `buildBackendOAuth`): a path that
+declares an auth-url with backend placement, or oauth without an auth-url of its own, gets from
+its backend section either `deny`, or the intercept through a port bound to the backend of its
+own URL / through its oauth2-proxy backend with its own path, followed by deny-or-redirect unless
+successful — for every validation outcome, port range, mix of other paths, hosts and backends,
+and every iteration order.  Side condition: the path does not carry a non-empty auth-url with a
+placement other than `backend`. -/
+theorem fail_closed_partial (w : World) (ho bo : List Nat) (i : Nat) (p : PathIn)
+    (hbo : bo.Nodup) (hp : w.paths[i]? = some p) (hmem : p.backend ∈ bo)
+    (hside : ¬ (p.url.nonEmpty = true ∧ ownPlc p ≠ .backend)) :
+    pathOk w (run true w ho bo).binds p (obsOf w (run true w ho bo) i) = true := by
+  cases hd : declared p with
+  | false => simp [pathOk, hd]
+  | true =>
+    obtain ⟨r1, hpost, hfin⟩ := run_brec (fixed := true) (ho := ho) hp hbo hmem
+    obtain ⟨hs, hrec⟩ := run_inv true w ho bo
+    have hrb : (obsOf w (run true w ho bo) i).rb = rulesOf (oauthRec true w p r1) := by
+      unfold obsOf
+      rw [hp]
+      simp only
+      rw [backendRules_eq _ _ (mem_backendIdxs.mpr ⟨p, hp, rfl⟩), hfin]
+    have hcov := final_rules_covered (w := w) (binds := (run true w ho bo).binds) hs hpost
+      (by
+        intro P hn
+        obtain ⟨p', u, hp', hu, hb⟩ := hrec i P (by rw [hfin]; exact hn)
+        rw [hp] at hp'
+        injection hp' with hp'
+        subst hp'
+        exact ⟨u, hu, hb⟩) hd hside
+    simp only [pathOk, hrb, hcov, Bool.or_true, Bool.true_or]
+
+/-! ### witnesses -/
+
+def uOk (target : Nat) (path : String) : Url :=
+  { parseOk := true, proto := .http, isIP := true, dnsOk := true, hasPort := true, hasNs := true,
+    svcFound := true, target := target, path := path }
+
+/-- `::malformed` -/
+def uMalformed : Url := { uOk 0 "" with parseOk := false }
+
+def mkPath (host backend : Nat) (key hamatch sub : String) (url : UrlAnn) (plc : Plc) (oauth : OAuthAnn) : PathIn :=
+  { host := host, backend := backend, ord := host * 16 + backend, key := key, hamatch := hamatch, sub := sub,
+    url := url, plc := plc, oauth := oauth, signin := false }
+
+def oauthOk : OAuthAnn := .val true true "/oauth2" "default_oauth2proxy_8080"
+
+def mkWorld (rs re : Int) (ps : List PathIn) : World :=
+  { isExternal := false, hasLua := false, rangeStart := rs, rangeEnd := re, paths := ps }
+
+/-- auth-url `::malformed`, placement backend, oauth oauth2_proxy (harness: `x0l0r2 0.0.0.b.mf.b.o.-,0.9.2.b.-.-.-.-`) -/
+def wBadUrlOAuth : World :=
+  mkWorld 14415 14416 [mkPath 0 0 "h0.local#/a" "beg" "h0.local#/a/sub" (.val uMalformed) .backend oauthOk]
+
+/-- the same path without the oauth key -/
+def wBadUrlOnly : World :=
+  mkWorld 14415 14416 [mkPath 0 0 "h0.local#/a" "beg" "h0.local#/a/sub" (.val uMalformed) .backend .absent]
+
+/-- an auth-url path and an oauth path of another ingress on one backend
+(harness: `x0l0r2 0.0.0.b.h1.b.-.-,0.1.0.b.-.-.o.-,0.9.2.b.-.-.-.-`) -/
+def wSharedBackend : World :=
+  mkWorld 14415 14416
+    [mkPath 0 0 "h0.local#/a" "beg" "h0.local#/a/sub" (.val (uOk 1 "/auth")) .backend .absent,
+     { mkPath 0 0 "h0.local#/b" "beg" "h0.local#/b/sub" .absent .absent oauthOk with ord := 1 }]
+
+/-- **`buildBackendOAuth` as found re-opens a path that a malformed auth-url had closed**: the
+record ends `AlwaysDeny=false`, no name, no rule — while without the oauth key it is denied -/
+theorem oauth_resets_deny :
+    let st := run false wBadUrlOAuth [0] [0]
+    st.brec 0 = {} ∧ (obsOf wBadUrlOAuth st 0).rb = [] ∧
+    (oracle wBadUrlOAuth st.binds [obsOf wBadUrlOAuth st 0]) = some "oauth-resets-deny-after-bad-auth-url" ∧
+    (obsOf wBadUrlOnly (run false wBadUrlOnly [0] [0]) 0).rb = [.deny] := by
+  decide +kernel
+
+/-- **the precedence test reads the backend-wide auth-url**: the oauth path of the second
+ingress is left without any rule -/
+theorem oauth_shared_backend_unprotected :
+    let st := run false wSharedBackend [0] [0]
+    (obsOf wSharedBackend st 1).rb = [] ∧
+    oracle wSharedBackend st.binds [obsOf wSharedBackend st 0, obsOf wSharedBackend st 1]
+      = some "oauth-shared-backend-unprotected" := by
+  decide +kernel
+
+/-- the full statement fails for the code as found -/
+theorem fail_closed_old_fails : ¬ FailClosed false := by
+  intro h
+  have := h wBadUrlOAuth [0] [0] 0 _ (by decide) rfl (by decide)
+  revert this
+  decide +kernel
+
+/-- the repaired variant protects both witnesses (deny, resp. oauth intercept) -/
+theorem fixed_repairs_witnesses :
+    (obsOf wBadUrlOAuth (run true wBadUrlOAuth [0] [0]) 0).rb = [.deny] ∧
+    (obsOf wSharedBackend (run true wSharedBackend [0] [0]) 1).rb =
+      [.icpt (.backend "default_oauth2proxy_8080") "/oauth2/auth" "/oauth2/", .unless true "/oauth2/"] ∧
+    oracle wSharedBackend (run true wSharedBackend [0] [0]).binds
+      [obsOf wSharedBackend (run true wSharedBackend [0] [0]) 0,
+       obsOf wSharedBackend (run true wSharedBackend [0] [0]) 1] = none := by
+  decide +kernel
+
+/-! ### frontend placement: what keeps `FailClosed true` from holding -/
+
+/-- one path, begin match, frontend placement (harness: `x0l0r2 0.0.0.b.h1.f.-.-`) -/
+def wFrontBegin : World :=
+  mkWorld 14415 14416 [mkPath 0 0 "h0.local#/a" "beg" "h0.local#/a/sub" (.val (uOk 1 "/auth")) .frontend .absent]
+
+/-- the frontend rule is scoped by `{ var(req.base) -m str beg 'h0.local#/a' }`: `-m str` compares
+the whole base with the words `beg` and the key, so a request below the path is not intercepted -/
+theorem frontend_rule_misses_subpaths :
+    let st := run true wFrontBegin [0] [0]
+    (obsOf wFrontBegin st 0).r0 = [.icpt (.proxy 14415) "/auth" "", .unless false ""] ∧
+    (obsOf wFrontBegin st 0).r1 = [] ∧
+    oracle wFrontBegin st.binds [obsOf wFrontBegin st 0] = some "frontend-rule-misses-subpath-requests" := by
+  decide +kernel
+
+/-- two ingresses on one host: the first fixes the host's placement, the frontend auth-url of
+the second is dropped (harness: `x0l0r2 0.0.0.e.h1.b.-.-,0.1.1.e.h2.f.-.-`) -/
+def wHostConflict : World :=
+  mkWorld 14415 14416
+    [mkPath 0 0 "h0.local#/a" "str" "h0.local#/a" (.val (uOk 1 "/auth")) .backend .absent,
+     mkPath 0 1 "h0.local#/b" "str" "h0.local#/b" (.val (uOk 2 "/check")) .frontend .absent]
+
+theorem frontend_placement_lost_on_host_conflict :
+    let st := run true wHostConflict [0] [0, 1]
+    st.frec 1 = none ∧ st.brec 1 = {} ∧
+    oracle wHostConflict st.binds [obsOf wHostConflict st 0, obsOf wHostConflict st 1]
+      = some "frontend-placement-lost-on-host-conflict" := by
+  decide +kernel
+
+/-- one port; a frontend-placed path, then a backend-placed path with another service: the
+clean-up does not count the frontend path's name, the port is handed to the other service
+(harness: `x0l0r1 0.0.0.e.h1.f.-.-,1.1.1.e.h2.b.-.-`) -/
+def wPortReassigned : World :=
+  mkWorld 14415 14415
+    [mkPath 0 0 "h0.local#/a" "str" "h0.local#/a" (.val (uOk 1 "/auth")) .frontend .absent,
+     mkPath 1 1 "h1.local#/b" "str" "h1.local#/b" (.val (uOk 2 "/check")) .backend .absent]
+
+theorem frontend_port_reassigned :
+    let st := run true wPortReassigned [0, 1] [0, 1]
+    st.frec 0 = some { name := .proxy 14415, authPath := "/auth" } ∧ st.binds = [⟨14415, 2⟩] ∧
+    st.cleaned = true ∧
+    oracle wPortReassigned st.binds [obsOf wPortReassigned st 0, obsOf wPortReassigned st 1]
+      = some "frontend-intercept-through-reassigned-auth-proxy-port" := by
+  decide +kernel
+
+/-- an auth-url whose placement is neither backend nor frontend configures nothing and still
+takes precedence over the path's oauth (harness: `x0l0r2 0.0.0.b.h1.t.o.-,0.9.2.b.-.-.-.-`) -/
+def wPlacementTypo : World :=
+  mkWorld 14415 14416 [mkPath 0 0 "h0.local#/a" "beg" "h0.local#/a/sub" (.val (uOk 1 "/auth")) .other oauthOk]
+
+theorem oauth_skipped_for_unplaced_auth_url :
+    let st := run true wPlacementTypo [0] [0]
+    (obsOf wPlacementTypo st 0) = ⟨[], [], []⟩ ∧
+    oracle wPlacementTypo st.binds [obsOf wPlacementTypo st 0]
+      = some "oauth-skipped-for-auth-url-with-invalid-placement" := by
+  decide +kernel
+
+/-- the full statement fails for the repaired variant too (frontend placement) -/
+theorem fail_closed_fails : ¬ FailClosed true := by
+  intro h
+  have := h wFrontBegin [0] [0] 0 _ (by decide) rfl (by decide)
+  revert this
+  decide +kernel
+
+/-- non-vacuity of `fail_closed_partial`: a declared path that satisfies the side condition and
+is intercepted through its own service; an exhausted range denies -/
+example : let w := mkWorld 14415 14416 [mkPath 0 0 "h0.local#/a" "beg" "h0.local#/a/sub" (.val (uOk 1 "/auth")) .absent .absent]
+    w.paths.all declared = true ∧
+    (obsOf w (run true w [0] [0]) 0).rb = [.icpt (.proxy 14415) "/auth" "", .unless false ""] ∧
+    (run true w [0] [0]).binds = [⟨14415, 1⟩] := by decide +kernel
+example : let w := mkWorld 14415 14414 [mkPath 0 0 "h0.local#/a" "beg" "h0.local#/a/sub" (.val (uOk 1 "/auth")) .absent .absent]
+    (obsOf w (run true w [0] [0]) 0).rb = [.deny] := by decide +kernel
+
+/-! ## facts regenerated from the Go sources and the template -/
+
+/-- `setAuthExternal` arms the deny first and clears it once, after the last early return; the
+clean-up between the two acquire attempts uses `BuildUsedAuthBackends`, which reads backend paths
+only; auth-url is built before oauth and hosts before backends; `buildBackendOAuth` is one of the
+two variants of the model; the frontend scope condition is the one `frontCond` models; the
+allocator compares what `scan`/`acquire` compare -/
+theorem facts_c18 :
+    Facts.c18SetAuthFirstStmt = "auth.AlwaysDeny = true" ∧
+    Facts.c18SetAuthDenyAssigns = ["auth.AlwaysDeny = true", "auth.AlwaysDeny = false"] ∧
+    Facts.c18SetAuthReturnsAfterClear = 0 ∧
+    Facts.c18SetAuthCleanup = ["c.haproxy.Backends().BuildUsedAuthBackends()", "c.haproxy.Frontend().RemoveAuthBackendExcept(used)"] ∧
+    Facts.c18UsedAuthReads = ["path.AuthExternal.AuthBackendName"] ∧
+    Facts.c18BackendBuilderOrder = ["c.buildBackendAuthExternal", "c.buildBackendOAuth"] ∧
+    Facts.c18FullSyncOrder = ["c.updater.UpdateHostConfig", "c.updater.UpdateBackendConfig"] ∧
+    Facts.c18BackendAuthConds = ["config.Get(ingtypes.BackAuthExternalPlacement).ToLower() == \"backend\"", "url.Value != \"\""] ∧
+    Facts.c18HostAuthConds = ["d.mapper.Get(ingtypes.BackAuthExternalPlacement).ToLower() == \"frontend\"", "url.Value != \"\""] ∧
+    Facts.c18FrontCondFormat = ["{ var(req.base) -m str %s '%s' }"] ∧
+    Facts.c18AcquireConds = ["bind.Backend == backend", "freePort == bind.LocalPort", "freePort > proxy.RangeEnd",
+      "proxy.BindList[i].LocalPort < proxy.BindList[j].LocalPort"] ∧
+    ((Facts.c18OAuthPrecedenceReads = "d.mapper" ∧ Facts.c18OAuthPrecedenceAssigns = ["path.AuthExternal.AlwaysDeny = false"] ∧ currentFixed = false) ∨
+     (Facts.c18OAuthPrecedenceReads = "config" ∧ Facts.c18OAuthPrecedenceAssigns = ["path.AuthExternal.AlwaysDeny = denied"] ∧ currentFixed = true)) := by
+  decide +kernel
+
 end HapVerif.C18
